@@ -24,6 +24,7 @@ void *ldb_realloc(void *ptr, size_t size) {
   return ptr;
 }
 void ldb_free(void *ptr) { if (ptr != NULL) free(ptr); }
+void *vp_realloc_ptrs(void *ptr, size_t size) { return ldb_realloc(ptr, size); }
 
 #else
 
@@ -90,6 +91,58 @@ void
 ldb_free(void *ptr) {
   if (ptr != NULL)
     free(ptr);
+}
+
+/* Arrays of pointers (ldb_vector_t items, reached through
+   kit/vp_vector_inc.h): a TYPED void*[] object with element-wise copy, so
+   that no pointer is ever stored in a byte array (DESIGN R5). */
+#ifndef VP_VEC_TRACK
+#define VP_VEC_TRACK 8
+#endif
+static void **vp_vptr[VP_VEC_TRACK];
+static size_t vp_vcnt[VP_VEC_TRACK];
+static int vp_vn = 0;
+
+void *
+vp_realloc_ptrs(void *ptr, size_t size) {
+  size_t cnt = size / sizeof(void *), old = 0, i, n;
+  void **np, **op = (void **)ptr;
+  int k, slot = -1;
+
+  for (k = 0; k < vp_vn; k++) {
+    if (ptr != NULL && (void *)vp_vptr[k] == ptr) {
+      old = vp_vcnt[k];
+      slot = k;
+    }
+  }
+
+  __CPROVER_assert(ptr == NULL || slot >= 0,
+                   "vp-model: vector realloc of a pointer not from vp_realloc_ptrs");
+
+  np = (void **)malloc(cnt * sizeof(void *));
+  __CPROVER_assume(np != NULL);
+
+  n = old < cnt ? old : cnt;
+  for (i = 0; i < n; i++)
+    np[i] = op[i];
+  /* fresh slots hold NULL rather than an arbitrary pointer: reading one and
+     dereferencing it is still reported (NULL dereference), but symex does not
+     have to consider every object of the program as a possible target */
+  for (i = n; i < cnt; i++)
+    np[i] = NULL;
+
+  if (ptr != NULL)
+    free(ptr);
+
+  if (slot < 0) {
+    __CPROVER_assert(vp_vn < VP_VEC_TRACK, "vp-model: vector table full");
+    slot = vp_vn++;
+  }
+
+  vp_vptr[slot] = np;
+  vp_vcnt[slot] = cnt;
+
+  return np;
 }
 
 #endif
